@@ -136,6 +136,10 @@ func runC20(c *engine.Ctx, tier string) {
 		Sel:     engine.Sel{Field: v3State, RHS: complete, Filter: lhsIs("Change.Apply.State")},
 		Require: "(@CFG.Applied.Ordinal == @T.Status.Change.Ordinal && @CFG.Applied.Revision == config/v3.Revision(@IDX)) || (#called(controller/v3/transaction.Reconciler.applyValues) && #passed(" + v3CfgUpd + ") && #wrote(config/v3.AppliedConfiguration.Revision=config/v3.Revision(@IDX)))",
 		Why:     "spec: apply Complete is recorded after the applied configuration holds the change"})
+	g(engine.Guard{ID: "C20.4e", Min: 2,
+		Sel:     engine.Sel{Field: v3State, RHS: complete, Filter: lhsIs("Rollback.Apply.State")},
+		Require: "(@CFG.Applied.Ordinal == @T.Status.Rollback.Ordinal && @CFG.Applied.Revision == config/v3.Revision(@T.Status.Rollback.Index)) || (#called(controller/v3/transaction.Reconciler.applyValues) && #passed(" + v3CfgUpd + ") && #wrote(config/v3.AppliedConfiguration.Revision=config/v3.Revision(@T.Status.Rollback.Index)))",
+		Why:     "spec: rollback apply Complete is recorded after the applied configuration is back at the rollback index — the recovery branch must recognise exactly that state (ordinal AND revision): a refused rollback also moves the ordinal"})
 	// consistency writes of a successful commit
 	c.Outcome(engine.Outcome{ID: "C20.4d", Pkg: pkgTxCtlV3, PathsOverride: vp, Root: "Reconciler.commitChange", Min: 1,
 		When: "#ok(" + pluginValidate + ")",
@@ -181,6 +185,8 @@ func runC20(c *engine.Ctx, tier string) {
 	swallowedConflicts(c, vp)
 	// (11) update tables
 	v3UpdateTables(c, vp)
+	// (12) what the v3 configuration store persists of a value map (rollback values carry older indexes)
+	persistTable(c, "C20.12", pkgStoreCfgV3)
 }
 
 func wroteBefore(p *engine.Path, i int, field, rhs string) bool {
